@@ -2,18 +2,16 @@
    L3: `PATH` (RFC 6962 audit path) and `root_from_path` (the RFC recomputation of the root from a
    leaf hash, an audit path, the leaf index and the tree size; None when the path length does not
    fit (index, size) or the index is out of range). *)
-From FV Require Import Base.Bytes Base.U64 Merkle.RFC6962 Merkle.RFCFacts Merkle.BinaryModel.
+From FV Require Import Base.Bytes Base.U64 Base.Map Merkle.RFC6962 Merkle.RFCFacts Merkle.BinaryModel Merkle.BinaryHistory
+     Merkle.VerifyProofs Merkle.ProveProofs.
 Open Scope N_scope.
 
-(* FULL statements still open for the L1 model (kept as definitions, never as theorems):
-   (a) the verifier accepts exactly when the RFC recomputation reaches the root, for ALL tuples;
-   (b) the proof produced by the tree is the RFC audit path. *)
-Definition C10_verify_iff_statement : Prop :=
-  forall (D : Type) (leaf_sum : bytes -> D) (node_sum : D -> D -> D) (D_eqb : D -> D -> bool),
-    (forall x y, D_eqb x y = true <-> x = y) ->
-    forall (root : D) (data : bytes) (proof : list D) (i n : N), n <= 2 ^ 63 ->
-      verify leaf_sum node_sum D_eqb root data proof i n = true <->
-      root_from_path node_sum (leaf_sum data) proof (N.to_nat i) (N.to_nat n) = Some root.
+(* FULL statement still open for the L1 model (kept as a definition, never as a theorem):
+   the proof produced by the storage-backed tree is the RFC audit path, for every tree below 2^63
+   leaves.  Proved below: for every tree of up to 128 leaves (C10_prove_is_PATH_partial), and for
+   every tree below 2^63 leaves under the computable premise `sides_ok` that the side positions
+   yielded by the position-path iterator are the in-order positions of the RFC sibling ranges
+   (C10_prove_is_PATH_given_sides); that premise is the only part established by computation. *)
 Definition C10_prove_is_PATH_statement : Prop :=
   forall (D : Type) (leaf_sum : bytes -> D) (node_sum : D -> D -> D) (empty_sum : D) (ls : list bytes) (i : N),
     lenN ls < 2 ^ 63 -> i < lenN ls ->
@@ -24,7 +22,7 @@ Definition C10_prove_is_PATH_statement : Prop :=
                 ProveOk (MTH leaf_sum node_sum empty_sum ls) (PATH leaf_sum node_sum empty_sum (N.to_nat i) ls).
 
 (* PROVED (L3 level, all sizes): the RFC audit path of leaf i recomputes the tree hash, i.e. the
-   completeness half at the level of the specification both (a) and (b) refer to. *)
+   completeness half at the level of the specification. *)
 Theorem C10_path_recomputes_root :
   forall (D : Type) (leaf_sum : bytes -> D) (node_sum : D -> D -> D) (empty_sum : D)
          (ls : list bytes) (i : nat) (d : bytes),
@@ -33,3 +31,112 @@ Theorem C10_path_recomputes_root :
       = Some (MTH leaf_sum node_sum empty_sum ls).
 Proof. intros D lf nd e ls i d Hi Hd. apply (path_recomputes_root lf nd e (length ls)); auto. Qed.
 Print Assumptions C10_path_recomputes_root.
+
+(* PROVED (L1 verify, ALL tuples with num_leaves <= 2^63): the verifier of binary/verify.rs
+   (path_length_from_key + the three-phase loop) returns true exactly when the RFC recomputation
+   from the same (leaf data, proof set, index, count) is defined and equals the root.  `D_eqb` is
+   any boolean equality that reflects equality on digests.
+   NOTE on the bound: the statement holds of the model up to and including n = 2^63, but at exactly
+   n = 2^63 (and any index below it) the model is NOT faithful to verify.rs: the model computes
+   `2 ^ height` in N, the Rust code evaluates `1u64 << height` with height = 64, which panics with
+   overflow checks and wraps to 1 without (verify then rejects a valid 63-element proof).  The range
+   on which model and code agree is n < 2^63. *)
+Theorem C10_verify_iff :
+  forall (D : Type) (leaf_sum : bytes -> D) (node_sum : D -> D -> D) (D_eqb : D -> D -> bool),
+    (forall x y, D_eqb x y = true <-> x = y) ->
+    forall (root : D) (data : bytes) (proof : list D) (i n : N), n <= 2 ^ 63 ->
+      verify leaf_sum node_sum D_eqb root data proof i n = true <->
+      root_from_path node_sum (leaf_sum data) proof (N.to_nat i) (N.to_nat n) = Some root.
+Proof. intros D lf nd eqb He root data proof i n Hn. exact (verify_iff lf nd eqb He root data proof i n Hn). Qed.
+Print Assumptions C10_verify_iff.
+
+(* completeness of the L1 verifier: it accepts the RFC audit path of every leaf of every tree *)
+Theorem C10_complete :
+  forall (D : Type) (leaf_sum : bytes -> D) (node_sum : D -> D -> D) (empty_sum : D) (D_eqb : D -> D -> bool),
+    (forall x y, D_eqb x y = true <-> x = y) ->
+    forall (ls : list bytes) (i : N) (d : bytes),
+      lenN ls <= 2 ^ 63 -> nth_error ls (N.to_nat i) = Some d ->
+      verify leaf_sum node_sum D_eqb (MTH leaf_sum node_sum empty_sum ls) d
+             (PATH leaf_sum node_sum empty_sum (N.to_nat i) ls) i (lenN ls) = true.
+Proof. intros D lf nd e eqb He ls i d Hb Hd. exact (verify_complete lf nd e eqb He ls i d Hb Hd). Qed.
+Print Assumptions C10_complete.
+
+(* soundness of the L1 verifier, collision-freeness of the node hash as an explicit premise
+   (injectivity): a tuple accepted against the tree hash of `ls` with num_leaves = |ls| proves that
+   a leaf with the same leaf hash sits at that index, and the proof set is the RFC audit path. *)
+Theorem C10_sound :
+  forall (D : Type) (leaf_sum : bytes -> D) (node_sum : D -> D -> D) (empty_sum : D) (D_eqb : D -> D -> bool),
+    (forall x y, D_eqb x y = true <-> x = y) ->
+    (forall a b c d, node_sum a b = node_sum c d -> a = c /\ b = d) ->
+    forall (ls : list bytes) (data : bytes) (proof : list D) (i : N),
+      lenN ls <= 2 ^ 63 ->
+      verify leaf_sum node_sum D_eqb (MTH leaf_sum node_sum empty_sum ls) data proof i (lenN ls) = true ->
+      exists d, nth_error ls (N.to_nat i) = Some d /\ leaf_sum data = leaf_sum d /\
+                proof = PATH leaf_sum node_sum empty_sum (N.to_nat i) ls.
+Proof. intros D lf nd e eqb He Hinj ls data proof i Hb H. exact (verify_sound lf nd e eqb He ls data proof i Hinj Hb H). Qed.
+Print Assumptions C10_sound.
+
+(* PROVED (L1 prove, every state of the storage-backed tree satisfying the invariant `tinv` of
+   BinaryHistory.v — established by any history of pushes/resets/reloads — and fewer than 2^63
+   leaves): if the side positions computed by position_path for (i, count) are the in-order
+   positions of the RFC sibling ranges (`sides_ok`, a boolean computed from i and count only),
+   then MerkleTree::prove returns the RFC tree hash and the RFC audit path.  Proved in general:
+   root_node's scratch table holds exactly the joins of the imperfect suffix blocks, scratch lookups
+   never shadow a complete block, the node table holds every complete block (SI). *)
+Theorem C10_prove_is_PATH_given_sides :
+  forall (D : Type) (leaf_sum : bytes -> D) (node_sum : D -> D -> D) (empty_sum : D)
+         (t : tree) (ls : list bytes) (i : N),
+    tinv leaf_sum node_sum empty_sum t ls -> lenN ls < 2 ^ 63 -> i < lenN ls ->
+    sides_ok i (lenN ls) = true ->
+    tree_prove node_sum t i =
+      ProveOk (MTH leaf_sum node_sum empty_sum ls) (PATH leaf_sum node_sum empty_sum (N.to_nat i) ls).
+Proof. exact @prove_is_PATH_given_sides. Qed.
+Print Assumptions C10_prove_is_PATH_given_sides.
+
+(* the premise holds for every leaf of every tree of up to 128 leaves (exhaustive computation,
+   bound in the statement) *)
+Theorem C10_sides_checked : forall c i, c <= 128 -> i < c -> sides_ok i c = true.
+Proof. exact sides_ok_128. Qed.
+Print Assumptions C10_sides_checked.
+
+(* PARTIAL version of C10_prove_is_PATH_statement: the same statement for trees of up to 128 leaves *)
+Theorem C10_prove_is_PATH_partial :
+  forall (D : Type) (leaf_sum : bytes -> D) (node_sum : D -> D -> D) (empty_sum : D) (ls : list bytes) (i : N),
+    lenN ls <= 128 -> i < lenN ls ->
+    exists t, fold_left (fun ot d => match ot with
+                                     | Some t => match tree_push leaf_sum node_sum t d with PushOk t' => Some t' | _ => None end
+                                     | None => None end) ls (Some tree_new) = Some t /\
+              tree_prove node_sum t i =
+                ProveOk (MTH leaf_sum node_sum empty_sum ls) (PATH leaf_sum node_sum empty_sum (N.to_nat i) ls).
+Proof.
+  intros D lf nd e ls i Hn Hi.
+  apply (prove_is_PATH_pushed lf nd e ls i); [|exact Hi|apply sides_ok_128; assumption].
+  apply N.le_lt_trans with 128; [exact Hn | reflexivity].
+Qed.
+Print Assumptions C10_prove_is_PATH_partial.
+
+(* non-vacuity of the premises: a digest type with a reflecting boolean equality and an injective
+   node hash exists (free hash terms), and the verifier accepts/rejects concrete tuples over it *)
+Inductive hterm := HLeaf (b : bytes) | HNode (l r : hterm) | HEmpty.
+Fixpoint hterm_eqb (x y : hterm) : bool :=
+  match x, y with
+  | HLeaf a, HLeaf b => bytes_eqb a b
+  | HNode a b, HNode c d => hterm_eqb a c && hterm_eqb b d
+  | HEmpty, HEmpty => true
+  | _, _ => false
+  end.
+Example C10_premises_inhabited :
+  (forall x y, hterm_eqb x y = true <-> x = y) /\
+  (forall a b c d, HNode a b = HNode c d -> a = c /\ b = d) /\
+  verify HLeaf HNode hterm_eqb (MTH HLeaf HNode HEmpty [[1]; [2]; [3]; [4]; [5]]) [4]
+         (PATH HLeaf HNode HEmpty 3 [[1]; [2]; [3]; [4]; [5]]) 3 5 = true /\
+  verify HLeaf HNode hterm_eqb (MTH HLeaf HNode HEmpty [[1]; [2]; [3]; [4]; [5]]) [3]
+         (PATH HLeaf HNode HEmpty 3 [[1]; [2]; [3]; [4]; [5]]) 3 5 = false.
+Proof.
+  split; [|split; [|split; vm_compute; reflexivity]].
+  - induction x as [a|a IHa b IHb|]; destruct y as [c|c d|]; cbn [hterm_eqb]; try (split; discriminate).
+    + rewrite bytes_eqb_eq. split; congruence.
+    + rewrite andb_true_iff, IHa, IHb. split; [intros [-> ->]; reflexivity | intros E; injection E; auto].
+    + split; reflexivity.
+  - intros a b c d E. injection E; auto.
+Qed.
